@@ -6,7 +6,7 @@ import time
 
 VERIF = os.path.dirname(os.path.dirname(os.path.abspath(__file__)))
 KNOWN_FILE = os.path.join(VERIF, 'known_findings.json')
-EVIDENCE_DIR = os.path.join(VERIF, 'evidence')
+EVIDENCE_DIR = os.environ.get('YABGP_EVIDENCE_DIR') or os.path.join(VERIF, 'evidence')
 
 
 class Instance(object):
@@ -124,7 +124,7 @@ class Report(object):
                     json.dump(dict(i.to_json(), property=self.prop), f, indent=1, default=str)
                 print('  %s %s:%s %s [%s] found: %s ; expected: %s' % (
                     i.rule, i.file, i.line, i.func or '', i.name, i.found, i.expected))
-                print('VIOLATION property=%s replay=%s' % (self.prop, os.path.relpath(rp, VERIF)))
+                print('VIOLATION property=%s replay=%s' % (self.prop, (os.path.relpath(rp, VERIF) if rp.startswith(VERIF) else rp)))
         if undec or empty_rules:
             for i in undec:
                 print('ANALYSIS-ERROR %s %s:%s [%s] %s' % (i.rule, i.file, i.line, i.name, i.found))
